@@ -234,6 +234,13 @@ func VerifC14Handle() {
 				_ = info.Mode()
 			}
 		case 2:
+			if unknown {
+				// after a mutation that reported failure the handle's offset is unspecified: ask the handle
+				// (Seek(0, current) does not touch the store)
+				if pos, perr := hackpadfs.SeekFile(h, 0, 1); perr == nil {
+					off = pos
+				}
+			}
 			n, werr := hackpadfs.WriteFile(h, []byte{7})
 			if werr != nil {
 				unknown = true
